@@ -428,7 +428,7 @@ FEAS_RLIMIT = int(os.environ.get("SEGVC_FEAS_RLIMIT", "2000000"))
 COVER_RLIMIT = int(os.environ.get("SEGVC_COVER_RLIMIT", "6000000"))
 BOUNDED_RLIMIT = int(os.environ.get("SEGVC_BOUNDED_RLIMIT", "30000000"))
 SEQ_Z3_TIMEOUT_MS = int(os.environ.get("SEGVC_SEQ_Z3_TIMEOUT_MS", "30000"))
-CVC5_TIMEOUT_MS = int(os.environ.get("SEGVC_CVC5_TIMEOUT_MS", "30000"))
+CVC5_TIMEOUT_MS = int(os.environ.get("SEGVC_CVC5_TIMEOUT_MS", "20000"))
 SEQ_Z3_RLIMIT = int(os.environ.get("SEGVC_SEQ_Z3_RLIMIT", "4000000"))
 QI_BOUND = int(os.environ.get("SEGVC_QI_BOUND", "30000"))
 COVER_TIMEOUT_MS = int(os.environ.get("SEGVC_COVER_TIMEOUT_MS", "20000"))
@@ -553,7 +553,7 @@ class State:
         self.solver.set("timeout", FEAS_TIMEOUT_MS)
         self.solver.set("rlimit", FEAS_RLIMIT)
         self.solver.add(cond)
-        r = self.solver.check()
+        r = _guarded_check(self.solver)
         self.solver.pop()
         return r != z3.unsat
 
@@ -562,7 +562,7 @@ class State:
         t0 = time.time()
         self.solver.set("timeout", Z3_TIMEOUT_MS if full else COVER_TIMEOUT_MS)
         self.solver.set("rlimit", Z3_RLIMIT if full else COVER_RLIMIT)
-        r = self.solver.check()
+        r = _guarded_check(self.solver)
         if r == z3.unsat:
             return "unsat", time.time() - t0
         if r == z3.sat:
@@ -573,7 +573,7 @@ class State:
         s2.set("timeout", MBQI_TIMEOUT_MS)
         s2.set("rlimit", MBQI_RLIMIT)
         s2.add(*self.solver.assertions())
-        r = s2.check()
+        r = _guarded_check(s2)
         return ("sat" if r == z3.sat else "unsat" if r == z3.unsat else "unknown"), time.time() - t0
 
     use_cvc5 = False  # set by units whose obligations are over byte sequences (z3's sequence solver is unstable there)
@@ -609,11 +609,16 @@ class State:
         self.solver.set("timeout", Z3_TIMEOUT_MS)
         self.solver.set("rlimit", Z3_RLIMIT)
         self.solver.add(z3.Not(goal))
-        r = self.solver.check()
+        r = _guarded_check(self.solver, wall_s=(SEQ_WALL_S if self.use_cvc5 else 30))
         self.solver.pop()
         return ("proved" if r == z3.unsat else "unknown"), time.time() - t0, None, "z3-ematch"
 
     def prove(self, goal):
+        if DEADLINE and time.time() > DEADLINE[0]:
+            raise Unsupported("the wall-clock budget of this unit is used up (undecided, not a verdict)")
+        return self._prove(goal)
+
+    def _prove(self, goal):
         """returns (verdict, seconds, model_or_None, detail)
 
         stage 1: E-matching only (MBQI off) -- `unsat` is a proof.
@@ -627,7 +632,7 @@ class State:
         self.solver.set("rlimit", SEQ_Z3_RLIMIT if self.use_cvc5 else Z3_RLIMIT)
         self.solver.add(z3.Not(goal))
         rl0 = _rl(self.solver) if STATS else 0
-        r = self.solver.check()
+        r = _guarded_check(self.solver, wall_s=(SEQ_WALL_S if self.use_cvc5 else None))
         if r == z3.unsat:
             if STATS:
                 _note_rl(_rl(self.solver) - rl0)
@@ -659,7 +664,7 @@ class State:
             s2.set("timeout", MBQI_TIMEOUT_MS)
             s2.set("rlimit", MBQI_RLIMIT)
             s2.add(*assertions)
-            r2 = s2.check()
+            r2 = _guarded_check(s2, wall_s=SEQ_WALL_S)
             dt = time.time() - t0
             if r2 == z3.unsat:
                 return "proved", dt, None, "z3-mbqi"
@@ -678,7 +683,7 @@ class State:
         s2.set("timeout", MBQI_TIMEOUT_MS)
         s2.set("rlimit", MBQI_RLIMIT)
         s2.add(*assertions)
-        r2 = s2.check()
+        r2 = _guarded_check(s2)
         dt = time.time() - t0
         if r2 == z3.unsat:
             return "proved", dt, None, "z3-mbqi"
@@ -696,7 +701,7 @@ class State:
             s4.set("rlimit", Z3_RLIMIT)
             perm = assertions[::-1] if attempt == 1 else (assertions[len(assertions) // 2:] + assertions[: len(assertions) // 2] if attempt == 2 else sorted(assertions, key=lambda a_: a_.get_id() % 7))
             s4.add(*perm)
-            if s4.check() == z3.unsat:
+            if _guarded_check(s4) == z3.unsat:
                 return "proved", time.time() - t0, None, f"z3-ematch-retry{attempt}"
         dt = time.time() - t0
         if "timeout" in reason1 or "canceled" in reason1 or "resource" in reason1 or "max" in reason1:
@@ -712,7 +717,7 @@ class State:
             s3.set("rlimit", BOUNDED_RLIMIT)
             s3.add(*assertions)
             t3 = time.time()
-            r3 = s3.check()
+            r3 = _guarded_check(s3)
             t3 = time.time() - t3
             dt = time.time() - t0
             if r3 == z3.unsat:
@@ -735,6 +740,29 @@ class State:
 
 
 register_class("$", {"alloc": BOOL}, kind="env")
+
+
+def _guarded_check(solver, wall_s=None):
+    """solver.check() with a wall-clock watchdog: z3's own `timeout` / `rlimit` are not honoured inside some theory
+    solvers (sequences), so a timer thread interrupts the context; an interrupted check answers `unknown`"""
+    import threading
+
+    if wall_s is None:
+        wall_s = WATCHDOG_S
+    t = threading.Timer(wall_s, solver.ctx.interrupt)
+    t.daemon = True
+    t.start()
+    try:
+        return solver.check()
+    except z3.Z3Exception:
+        return z3.unknown
+    finally:
+        t.cancel()
+
+
+WATCHDOG_S = float(os.environ.get("SEGVC_WATCHDOG_S", "90"))
+SEQ_WALL_S = float(os.environ.get("SEGVC_SEQ_WALL_S", "15"))  # z3 on sequence obligations: its own limits are not honoured there
+DEADLINE: list = []  # [absolute time] set by unit.explore for the unit being explored
 
 
 def forall(vs, body, patterns=None):
